@@ -1,5 +1,6 @@
 """C19 — classical Ising sampler: Boltzmann law of the reported energy is stationary ({spin+edge} move
 set), moves keep the number of spins, reported energy = direct sum over edges and biases."""
+from checks import big_scale
 from checks import api_cov
 LEAN_TARGETS = ["QmcProps.C19", "drv_c19"]
 BINS = ["c19"]
@@ -81,4 +82,5 @@ def main(ck):
             "ergodicity / convergence ('after equilibration') is not a statement about this code and is not proved",
         ]
     api_cov.run(ck, "c19")   # otherwise unexercised public API, model-free oracles of this property
+    big_scale.run(ck, "classicalring")   # large-scale regime (>65536 bonds/ops/slots, release semantics): model-free oracles of the property statements
     return ck.finish(RULE)
